@@ -213,6 +213,8 @@ Definition resolve_node2 (n : xnode) (ctx : list text) (st : state) (b : Cursor.
     match eval code_ops pv e [] with
     | EErr => Err
     | EOk (v, _) =>
+      (* on the final pass a failed constraint is an error, as it is in the pre-pass of address-free constants *)
+      if last && (match v with VFailed => true | _ => false end) then Err else
       let prev := nth s (s_sym st) VUnknown in
       let st' := {| s_sym := set_nth (s_sym st) s v; s_instr := s_instr st; s_data := s_data st; s_res := s_res st; s_align := s_align st; s_addr := s_addr st |} in
       Ok (st', if value_identical v prev then Resolved else Unresolved)
